@@ -191,6 +191,73 @@ func (e *Enc) scanContract(ms *modSet, fc *FuncContract) {
 }
 
 func (e *Enc) scanContractSig(ms *modSet, fc *FuncContract, sig *types.Signature) {
+	e.scanContractCall(ms, fc, sig, nil)
+}
+
+// pointeeTypes resolves `pointees(param)` at a call: the element types of the pointers that the
+// caller packed into the (variadic) slice argument, found syntactically (stores into the slice's
+// backing array in the caller). nil when they cannot be determined.
+func pointeeTypes(c *ssa.CallCommon, sig *types.Signature, param string) []types.Type {
+	if c == nil || sig == nil {
+		return nil
+	}
+	idx := -1
+	for i := 0; i < sig.Params().Len(); i++ {
+		if sig.Params().At(i).Name() == param {
+			idx = i
+		}
+	}
+	if idx < 0 {
+		return nil
+	}
+	args := c.Args
+	if !c.IsInvoke() && sig.Recv() != nil {
+		if len(args) == sig.Params().Len()+1 {
+			args = args[1:]
+		}
+	}
+	if idx >= len(args) {
+		return nil
+	}
+	sl, ok := args[idx].(*ssa.Slice)
+	if !ok {
+		return nil
+	}
+	arr, ok := sl.X.(*ssa.Alloc)
+	if !ok {
+		return nil
+	}
+	var out []types.Type
+	for _, ref := range *arr.Referrers() {
+		switch r := ref.(type) {
+		case *ssa.Slice:
+			if r != sl {
+				return nil
+			}
+		case *ssa.IndexAddr:
+			for _, rr := range *r.Referrers() {
+				st, ok := rr.(*ssa.Store)
+				if !ok {
+					return nil
+				}
+				v := st.Val
+				if mi, ok := v.(*ssa.MakeInterface); ok {
+					v = mi.X
+				}
+				pt, ok := v.Type().Underlying().(*types.Pointer)
+				if !ok {
+					return nil
+				}
+				out = append(out, pt.Elem())
+			}
+		default:
+			return nil
+		}
+	}
+	return out
+}
+
+func (e *Enc) scanContractCall(ms *modSet, fc *FuncContract, sig *types.Signature, call *ssa.CallCommon) {
 	if fc.Pure {
 		return
 	}
@@ -214,6 +281,18 @@ func (e *Enc) scanContractSig(ms *modSet, fc *FuncContract, sig *types.Signature
 			if id, ok := t.Fun.(*SIdent); ok {
 				if _, ok := e.P.CS.GhostFields[id.Name]; ok {
 					ms.heaps["G_"+id.Name] = true
+					continue
+				}
+				if id.Name == "pointees" && len(t.Args) == 1 {
+					if pid, ok := t.Args[0].(*SIdent); ok {
+						if tys := pointeeTypes(call, sig, pid.Name); tys != nil {
+							for _, ty := range tys {
+								e.addLeafHeaps(ms, ty)
+							}
+							continue
+						}
+					}
+					ms.allHeaps = true
 					continue
 				}
 				if id.Name == "mapc" {
@@ -245,7 +324,7 @@ func (e *Enc) scanContractSig(ms *modSet, fc *FuncContract, sig *types.Signature
 func (e *Enc) scanCall(ms *modSet, c *ssa.CallCommon, seen map[*ssa.Function]bool) {
 	if c.IsInvoke() {
 		if fc, ok := e.P.CS.Funcs[c.Method.FullName()]; ok {
-			e.scanContractSig(ms, fc, c.Signature())
+			e.scanContractCall(ms, fc, c.Signature(), c)
 			return
 		}
 		e.scanExtern(ms, c.Method.FullName())
@@ -262,7 +341,7 @@ func (e *Enc) scanCall(ms *modSet, c *ssa.CallCommon, seen map[*ssa.Function]boo
 			e.addMapHeaps(ms, c.Args[0].Type().Underlying().(*types.Map))
 		}
 	case *ssa.Function:
-		e.scanStatic(ms, callee, seen)
+		e.scanStaticCall(ms, callee, seen, c)
 	case *ssa.MakeClosure:
 		e.scanStatic(ms, callee.Fn.(*ssa.Function), seen)
 	default:
@@ -278,6 +357,10 @@ func (e *Enc) scanCall(ms *modSet, c *ssa.CallCommon, seen map[*ssa.Function]boo
 }
 
 func (e *Enc) scanStatic(ms *modSet, fn *ssa.Function, seen map[*ssa.Function]bool) {
+	e.scanStaticCall(ms, fn, seen, nil)
+}
+
+func (e *Enc) scanStaticCall(ms *modSet, fn *ssa.Function, seen map[*ssa.Function]bool, call *ssa.CallCommon) {
 	key := funcKey(fn)
 	switch key {
 	case "(encoding/binary.bigEndian).PutUint64", "(encoding/binary.bigEndian).PutUint32", "(encoding/binary.bigEndian).PutUint16":
@@ -288,7 +371,7 @@ func (e *Enc) scanStatic(ms *modSet, fn *ssa.Function, seen map[*ssa.Function]bo
 		return
 	}
 	if fc, ok := e.P.CS.Funcs[key]; ok && !fc.Inline {
-		e.scanContractSig(ms, fc, fn.Signature)
+		e.scanContractCall(ms, fc, fn.Signature, call)
 		return
 	}
 	if fn.Blocks != nil && (e.inRepo(fn) || fn.Synthetic != "" || fn.Parent() != nil) {
